@@ -672,8 +672,14 @@ pub fn prepare_new_room(room_node: &RoomNode) -> Result<()> {
     for auth in &room_node.auth_nodes {
         match room.is_admin(&auth.node.verifying_key, auth.node.mdate) {
             true => {
+                let authorisation = room.authorisations.get(&auth.node.id);
                 for user in &auth.user_nodes {
-                    if !room.is_admin(&user.node.verifying_key, user.node.mdate) {
+                    let by_user_admin = match authorisation {
+                        Some(a) => a.can_admin_users(&user.node.verifying_key, user.node.mdate),
+                        None => false,
+                    };
+                    if !by_user_admin && !room.is_admin(&user.node.verifying_key, user.node.mdate)
+                    {
                         return Err(Error::InvalidNode(
                             "New RoomNode Authorisation User not authorised".to_string(),
                         ));
@@ -909,7 +915,9 @@ fn prepare_auth_with_history(
 fn prepare_new_auth(room: &Room, new_auth: &AuthorisationNode) -> Result<()> {
     let authorisation = new_auth.parse()?;
     for new_user in &new_auth.user_nodes {
-        if !authorisation.can_admin_users(&new_user.node.verifying_key, new_user.node.mdate) {
+        if !authorisation.can_admin_users(&new_user.node.verifying_key, new_user.node.mdate)
+            && !room.is_admin(&new_user.node.verifying_key, new_user.node.mdate)
+        {
             return Err(Error::InvalidNode(
                 "RoomNode Authorisation new user is not authorised".to_string(),
             ));
